@@ -304,14 +304,31 @@ Proof. apply NoDup_filter. Qed.
 Lemma pin_of_step st o p : pin_of (step st o) p = pin_of st p.
 Proof.
   unfold step. destruct (negb (step_ok st o)); [reflexivity|].
-  destruct o; try reflexivity. destruct (active st e); reflexivity.
+  destruct o; try reflexivity; unfold set_end, free_end; destruct (active st e); reflexivity.
 Qed.
 
 Lemma Inv_step st o : Inv st -> Inv (step st o).
 Proof.
   intros (Hex & Hcons & Hnd). unfold step.
   destruct (step_ok st o) eqn:Hok; cbn [negb]; [|repeat split; auto; apply Hcons].
-  destruct o as [e p|e|s dx dy|s poly|s].
+  destruct o as [e p|e|s dx dy|s poly|s|e s c].
+  6: { (* Retarget = Free followed by a change of the end table, which Inv does not mention *)
+    assert (Hfree : Inv (free_end st e)).
+    { unfold free_end. destruct (active st e) eqn:Hact; [|repeat split; auto; apply Hcons].
+      rename n into p. unfold Inv, pin_of; cbn [users active st_pins]. fold (remove_nat e). repeat split.
+      + intros q Hq. destruct (Nat.eqb q p); [|apply Hex; exact Hq].
+        pose proof (remove_nat_length e (users st q)). specialize (Hex q Hq). fold (remove_nat e (users st q)). lia.
+      + intro Hin. destruct (Nat.eqb p0 p) eqn:Ep.
+        * apply remove_nat_In in Hin. destruct Hin as [Hin Hne].
+          apply Nat.eqb_neq in Hne. rewrite Hne. apply Hcons. exact Hin.
+        * destruct (Nat.eqb e0 e) eqn:Ee.
+          -- apply Nat.eqb_eq in Ee. subst e0. apply Hcons in Hin. apply Nat.eqb_neq in Ep. congruence.
+          -- apply Hcons. exact Hin.
+      + intro Hact'. destruct (Nat.eqb e0 e) eqn:Ee; [discriminate|].
+        apply Hcons in Hact'. destruct (Nat.eqb p0 p); [|exact Hact'].
+        apply remove_nat_In. split; [exact Hact'|]. apply Nat.eqb_neq. exact Ee.
+      + intro q. destruct (Nat.eqb q p); [apply remove_nat_NoDup|]; apply Hnd. }
+    exact Hfree. }
   - (* Assign *)
     cbn [step_ok] in Hok. destruct (active st e) eqn:Hact; [discriminate|].
     unfold candidate in Hok. rewrite !andb_true_iff in Hok. destruct Hok as [_ Hfree].
@@ -369,7 +386,7 @@ Qed.
 Lemma st_pins_step st o : st_pins (step st o) = st_pins st.
 Proof.
   unfold step. destruct (negb (step_ok st o)); [reflexivity|].
-  destruct o; try reflexivity. destruct (active st e); reflexivity.
+  destruct o; try reflexivity; unfold set_end, free_end; destruct (active st e); reflexivity.
 Qed.
 Lemma st_pins_run ops : forall st, st_pins (run st ops) = st_pins st.
 Proof.
@@ -460,6 +477,90 @@ Proof.
   intros Hok Hs. unfold pin_pos. rewrite pin_of_step. unfold step. rewrite Hok. cbn [negb st_shape users active].
   rewrite Hs, Nat.eqb_refl. repeat split.
 Qed.
+
+(* ------------------------------------------------------------------ re-attachment of a connector end (op Retarget)
+   A user change of a connector end (setSourceEndpoint / setDestEndpoint / setEndpoints), as the transaction applies it: the
+   end's old pin is freed, the end now names (shape s, class c).  That the queued USER change is the one the transaction
+   applies, also when the old anchor shape is moved in the same transaction (the shape move queues a pin-move update for the
+   same end), is the queue rule pin_move_no_overwrite of Avoid/ActionQueueConn.v. *)
+Lemma set_nth_length {A} (x : A) l : forall n, length (set_nth n x l) = length l.
+Proof. induction l as [|a r IH]; intros [|n]; cbn; auto. Qed.
+Lemma nth_set_nth_eq {A} (x d : A) l : forall n, (n < length l)%nat -> nth n (set_nth n x l) d = x.
+Proof. induction l as [|a r IH]; intros [|n] H; cbn in *; try lia; auto. apply IH. lia. Qed.
+Lemma nth_set_nth_neq {A} (x d : A) l : forall n m, n <> m -> nth m (set_nth n x l) d = nth m l d.
+Proof. induction l as [|a r IH]; intros [|n] [|m] H; cbn; auto; try congruence. Qed.
+Lemma remove_nat_notin x l : ~ In x l -> remove_nat x l = l.
+Proof.
+  unfold remove_nat. induction l as [|a r IH]; intro H; cbn; [reflexivity|].
+  destruct (Nat.eqb x a) eqn:E; cbn.
+  - apply Nat.eqb_eq in E. subst a. exfalso. apply H. left. reflexivity.
+  - f_equal. apply IH. intro Hin. apply H. right. exact Hin.
+Qed.
+
+Theorem retarget_spec st e s c :
+  Inv st -> step_ok st (Retarget e s c) = true ->
+  let st' := step st (Retarget e s c) in
+  end_of st' e = mkend s c /\ (forall f, f <> e -> end_of st' f = end_of st f) /\
+  length (st_ends st') = length (st_ends st) /\
+  active st' e = None /\ (forall f, f <> e -> active st' f = active st f) /\
+  (forall p, users st' p = remove_nat e (users st p)) /\
+  st_shape st' = st_shape st /\ st_pins st' = st_pins st.
+Proof.
+  intros (Hex & Hcons & Hnd) Hok st'. unfold st', step. rewrite Hok. cbn [negb]. cbn [step_ok] in Hok. apply Nat.ltb_lt in Hok.
+  unfold set_end, free_end, end_of.
+  destruct (active st e) as [p0|] eqn:Ha; cbn [st_ends active users st_shape st_pins];
+    (split; [apply nth_set_nth_eq; exact Hok|]); (split; [intros f Hf; apply nth_set_nth_neq; congruence|]);
+    (split; [apply set_nth_length|]).
+  - rewrite Nat.eqb_refl. split; [reflexivity|]. split.
+    + intros f Hf. apply Nat.eqb_neq in Hf. rewrite Hf. reflexivity.
+    + split; [|split; reflexivity]. intro p. destruct (Nat.eqb p p0) eqn:E; [reflexivity|].
+      symmetry. apply remove_nat_notin. intro Hin. apply Hcons in Hin. apply Nat.eqb_neq in E. congruence.
+  - split; [exact Ha|]. split; [reflexivity|]. split; [|split; reflexivity].
+    intro p. symmetry. apply remove_nat_notin. intro Hin. apply Hcons in Hin. congruence.
+Qed.
+
+(* after the re-attachment the candidate pins of the end are exactly the free pins of class c on the NEW shape s (the end's own
+   former use of a pin does not count); nothing of the old anchor is offered any more unless it is the same shape and class *)
+Theorem reattached_end_candidates st e s c p :
+  Inv st -> step_ok st (Retarget e s c) = true ->
+  (In p (candidates (step st (Retarget e s c)) e) <->
+   (p < length (st_pins st))%nat /\ p_shape (pin_of st p) = s /\ st_shape st s <> None /\ p_class (pin_of st p) = c /\
+   (p_excl (pin_of st p) = false \/ remove_nat e (users st p) = [])).
+Proof.
+  intros HI Hok. destruct (retarget_spec st e s c HI Hok) as (He & _ & Hlen & _ & _ & Hu & Hs & Hp).
+  rewrite free_pin_chosen, pin_of_step, He, Hlen, Hs, Hp, Hu. cbn [e_shape e_class].
+  cbn [step_ok] in Hok. apply Nat.ltb_lt in Hok.
+  split.
+  - intros (H1 & _ & H3 & H4 & H5 & H6). rewrite H3 in H4. auto.
+  - intros (H1 & H3 & H4 & H5 & H6). rewrite H3. auto 6.
+Qed.
+
+(* re-attachment to something that is not a live shape (free point, junction): no pin is offered, the end uses no pin *)
+Theorem retarget_detached_no_candidates st e s c :
+  Inv st -> step_ok st (Retarget e s c) = true -> st_shape st s = None ->
+  candidates (step st (Retarget e s c)) e = [] /\ active (step st (Retarget e s c)) e = None.
+Proof.
+  intros HI Hok Hs. split; [|apply (retarget_spec st e s c HI Hok)].
+  destruct (candidates (step st (Retarget e s c)) e) as [|p r] eqn:E; [reflexivity|].
+  assert (Hin : In p (candidates (step st (Retarget e s c)) e)) by (rewrite E; left; reflexivity).
+  apply (reattached_end_candidates st e s c p HI Hok) in Hin. destruct Hin as (_ & _ & H & _). congruence.
+Qed.
+
+(* non-vacuity (the seeded scene in miniature): end 0 uses the pin of shape 0 (class 1); it is re-attached to class 1 of shape 1
+   while shape 0 moves; afterwards only shape 1's pin is offered, the old pin has no user, and the new pin follows shape 1 *)
+Example retarget_nonvacuous :
+  let pins := [mkpin 0 1 (1#2) POS_TOP 0 DirUp true true; mkpin 1 1 (1#2) POS_BOTTOM 0 DirDown true true] in
+  let ends := [mkend 0 1] in
+  let sq := fun x y => [mkpt (x + 10) y; mkpt (x + 10) (y + 10); mkpt x (y + 10); mkpt x y] in
+  let shapes := fun t => if Nat.eqb t 0 then Some (sq 0 0) else if Nat.eqb t 1 then Some (sq 0 100) else None in
+  let st1 := run (init pins ends shapes) [Assign 0 0] in
+  let st2 := run st1 [Retarget 0 1 1; MoveShape 0 40 20] in
+  let st3 := run st2 [Assign 0 1; MoveShape 1 (-(50)) 10] in
+  run_ok (init pins ends shapes) [Assign 0 0; Retarget 0 1 1; MoveShape 0 40 20; Assign 0 1; MoveShape 1 (-(50)) 10] = true /\
+  users st1 0%nat = [0%nat] /\ candidates st2 0 = [1%nat] /\ users st2 0%nat = [] /\ active st2 0%nat = None /\
+  step_ok st2 (Assign 0 0) = false /\
+  active st3 0%nat = Some 1%nat /\ option_map (fun q => (Qeqb (px q) (-(45)), Qeqb (py q) 120)) (pin_pos st3 1) = Some (true, true).
+Proof. vm_compute. repeat split. Qed.
 
 (* ------------------------------------------------------------------ route checkers: what `true` means *)
 (* the segment a -> b runs in compass direction d (screen coordinates: up = decreasing y) *)
